@@ -11,7 +11,7 @@ import gevent
 from gevent.queue import Queue
 
 from vf.boot import loop
-from vf.world import World, HarnessError, settle, advance, run_until
+from vf.world import World, HarnessError, ApiRaised, settle, advance, run_until
 from vf.simnet import SimNet, Server
 from vf.peers.thrift_serial import ThriftSerialPeer
 from vf.peers.mux import MuxPeer
@@ -132,6 +132,15 @@ def _respond_factory(port, srv_plan):
       raise RuntimeError('handler failure')
     return echo(port, method, a)
   return respond
+
+
+def _close(client, tr):
+  # closing a client is always a valid call: an exception out of it is reported for whichever property is being checked
+  try:
+    client.DispatcherClose()
+  except Exception as e:
+    if getattr(tr, 'close_error', None) is None:
+      tr.close_error = e
 
 
 def run_world(plan, world=None):
@@ -337,7 +346,7 @@ def run_world(plan, world=None):
           st_e['n'] += 1
           if st_e['n'] == coe['nth']:
             # the application closes the client in the handler of the failed call, i.e. the moment the caller is woken
-            client.DispatcherClose()
+            _close(client, tr)
             tr.closed_at = loop.now()
             tr.close_seq = net.seq
             tr.closed_on_error = True
@@ -355,7 +364,7 @@ def run_world(plan, world=None):
         def closer():
           gevent.sleep(coc['delay_ms'] / 1000.0)
           if tr.closed_at is None:
-            client.DispatcherClose()
+            _close(client, tr)
             tr.closed_at = loop.now()
             tr.close_seq = net.seq
             tr.closed_during_connect = True
@@ -380,7 +389,11 @@ def run_world(plan, world=None):
       if what == 'down':
         srv.set_down(reset=True)
       elif what == 'up':
+        srv.blackhole = None
         srv.set_up()
+      elif isinstance(what, list) and what[0] == 'blackhole':
+        srv.set_down(reset=True)
+        srv.blackhole = what[1]
       elif what == 'kill':
         for c in srv.live():
           c.deliver_reset()
@@ -420,7 +433,7 @@ def run_world(plan, world=None):
       tr.gate_evt.set()
     elif k == 'close':
       if tr.closed_at is None:
-        client.DispatcherClose()
+        _close(client, tr)
         tr.closed_at = loop.now()
         settle()
         tr.close_seq = net.seq
@@ -443,6 +456,8 @@ def run_world(plan, world=None):
     except Exception:
       pass
   settle()
+  if getattr(tr, 'close_error', None) is not None:
+    raise ApiRaised('DispatcherClose() raised %r' % (tr.close_error,))
   return tr
 
 
